@@ -204,6 +204,7 @@ def slot_objects(req, resp):
         'toolmapTools': tm.get('tools') if isinstance(tm, dict) else None,
         'params': req.params, 'headers': req.headers, 'headerList': req.header_list,
         'cookie': req.cookie, 'config': req.config,
+        'uniqueId': getattr(req, 'unique_id', None), 'local': req.local, 'remote': req.remote,
         'respHeaders': resp.headers, 'respCookie': resp.cookie,
         'respBody': getattr(resp, '_body', None),
     }
@@ -235,6 +236,7 @@ def slot_contents(req, resp):
         'headerList': canon(list(req.header_list)),
         'cookie': canon_cookie(req.cookie),
         'config': canon(dict(req.config)) if isinstance(req.config, dict) else canon(req.config),
+        'local': canon(dict(vars(req.local))), 'remote': canon(dict(vars(req.remote))),
         'respHeaders': canon_headers(resp.headers),
         'respCookie': canon_cookie(resp.cookie),
         'reqAttrs': sorted(vars(req)),
@@ -266,6 +268,8 @@ def class_level_objects():
         'Request.hooks': R.hooks, 'Request.error_page': R.error_page, 'Request.namespaces': R.namespaces,
         'Request.toolmaps': R.toolmaps, 'Request.params': R.params, 'Request.headers': R.headers,
         'Request.header_list': R.header_list, 'Request.cookie': R.cookie,
+        'Request.local': R.local, 'Request.remote': R.remote,
+        'default.request.local': dreq.local, 'default.request.remote': dreq.remote,
         'Response.headers': P.headers, 'Response.cookie': P.cookie, 'Response.header_list': P.header_list,
         'Entity.processors': E.processors, 'Entity.attempt_charsets': E.attempt_charsets,
         'Part.attempt_charsets': _cpreqbody.Part.attempt_charsets,
@@ -298,6 +302,8 @@ def class_level_fingerprint():
         'Request.toolmaps': canon(R.toolmaps), 'Request.params': canon(R.params),
         'Request.headers': canon_headers(R.headers), 'Request.header_list': canon(R.header_list),
         'Request.cookie': canon_cookie(R.cookie), 'Request.config': canon(R.config),
+        'Request.local': canon(dict(vars(R.local))), 'Request.remote': canon(dict(vars(R.remote))),
+        'default.request.local': canon(dict(vars(dreq.local))), 'default.request.remote': canon(dict(vars(dreq.remote))),
         'Request.attrs': sorted(k for k in vars(R) if not k.startswith('__')),
         'Request.scalars': {k: canon(vars(R).get(k, 'ABSENT')) for k in REQ_SCALARS},
         'Response.headers': canon_headers(P.headers), 'Response.cookie': canon_cookie(P.cookie),
@@ -362,6 +368,8 @@ OPS = {
     'attr.response':       ('respDict', 'add'),
     'attr.body':           ('bodyDict', 'add'),
     'attr.serving':        ('servingDict', 'add'),
+    'remote.ip.set':       ('remote', 'set'),
+    'local.name.set':      ('local', 'set'),
     'scalar.show_tracebacks': ('reqDict', 'set'),
     'scalar.show_mismatched': ('reqDict', 'set'),
     'scalar.login':        ('reqDict', 'set'),
@@ -445,6 +453,10 @@ def apply_op(op, token):
         setattr(req.body, 'c10_' + marker, token)
     elif name == 'attr.serving':
         setattr(cherrypy.serving, 'c10_' + marker, token)
+    elif name == 'remote.ip.set':          # what tools.proxy does with X-Forwarded-For
+        req.remote.ip = marker
+    elif name == 'local.name.set':
+        req.local.name = marker
     elif name == 'scalar.show_tracebacks':
         req.show_tracebacks = False
     elif name == 'scalar.show_mismatched':
